@@ -33,6 +33,7 @@ import (
 	"fmt"
 	"io"
 	"net"
+	"runtime"
 	"strconv"
 	"strings"
 	"sync"
@@ -302,6 +303,19 @@ func (l c15Logger) Infof(string, ...interface{})      {}
 func (l c15Logger) Tracef(string, ...interface{})     {}
 func (l c15Logger) Warnf(string, ...interface{})      {}
 
+// c15SlowLogger: a log sink that does I/O (every Info/Debug call takes a moment). It widens the
+// window between two synchronisation points of the driver whenever a log call sits between them,
+// so overlapping callers really overlap whatever the load of the machine.
+type c15SlowLogger struct {
+	c15Logger
+	d time.Duration
+}
+
+func (l c15SlowLogger) Debug(string, ...interface{})  { time.Sleep(l.d) }
+func (l c15SlowLogger) Info(string, ...interface{})   { time.Sleep(l.d) }
+func (l c15SlowLogger) Debugf(string, ...interface{}) { time.Sleep(l.d) }
+func (l c15SlowLogger) Infof(string, ...interface{})  { time.Sleep(l.d) }
+
 // request whose marshalling is counted: Client.SendFor marshals once per call
 type c15Probe struct{ n atomic.Int64 }
 
@@ -352,6 +366,14 @@ func (r *c15Run) serve(cn *c15Conn, wantSRC int) {
 		time.Sleep(15 * time.Millisecond)
 		r.logf("fail")
 		c.Close()
+		signal("dropped")
+		return
+	case 'P':
+		// half a message header, then nothing until the device gives up
+		r.logf("fail")
+		c.Write([]byte{0x04, 0x3F, 0x00, 0x00, 0x00})
+		c.SetReadDeadline(time.Now().Add(100 * time.Second))
+		io.Copy(io.Discard, c)
 		signal("dropped")
 		return
 	case 'Z':
@@ -643,7 +665,7 @@ func c15RunScript(id string, up0 bool, toks []string) string {
 			var what string
 			select {
 			case what = <-cn.stepDone:
-			case <-time.After(map[bool]time.Duration{false: map[bool]time.Duration{false: 6 * time.Second, true: 110 * time.Second}[tok[1] == 'Z'],
+			case <-time.After(map[bool]time.Duration{false: map[bool]time.Duration{false: 6 * time.Second, true: 80 * time.Second}[tok[1] == 'Z' || tok[1] == 'P'],
 				true: 1500 * time.Millisecond}[want == 2 && tok[1] == 'E']):
 				what = "timeout"
 				if !(want == 2 && tok[1] == 'E') {
@@ -738,8 +760,10 @@ func c15RunScript(id string, up0 bool, toks []string) string {
 			}
 		case tok == "F":
 			r.sdkFail.Store(true)
+			r.logf("F")
 		case tok == "G":
 			r.sdkFail.Store(false)
+			r.logf("G")
 		case tok[0] == 'Q' || tok == "q":
 			mode := int32('Q')
 			if tok == "q" {
@@ -970,6 +994,195 @@ func c15RunStart(id string, up0 bool, phases string) string {
 	return fmt.Sprintf("%s | up=%d", strings.Join(reps, " "), map[bool]int{false: 0, true: 1}[up])
 }
 
+// c15RaceEnv: a scripted loopback reader that accepts every connection, completes the LLRP
+// exchange and counts connections (at a time / in total), and a Driver talking to it.
+type c15RaceEnv struct {
+	r                       *c15Run
+	d                       *Driver
+	proto                   protocolMap
+	conc, maxconc, accepted atomic.Int64
+	close                   func()
+}
+
+func c15NewRaceEnv(id string, logDelay time.Duration) (*c15RaceEnv, string) {
+	e := &c15RaceEnv{}
+	r := &c15Run{id: id, name: "race-" + id}
+	e.r = r
+	l, err := net.Listen("tcp4", "127.0.0.1:0")
+	if err != nil {
+		return nil, "!listen " + err.Error()
+	}
+	port := strconv.Itoa(l.Addr().(*net.TCPAddr).Port)
+	conc, maxconc, accepted := &e.conc, &e.maxconc, &e.accepted
+	go func() {
+		for {
+			c, err := l.Accept()
+			if err != nil {
+				return
+			}
+			accepted.Add(1)
+			if v := conc.Add(1); v > maxconc.Load() {
+				maxconc.Store(v)
+			}
+			go func(c net.Conn) {
+				var once sync.Once
+				gone := func() { once.Do(func() { conc.Add(-1) }) }
+				defer c.Close()
+				defer gone()
+				c.Write(c15Frame(c15MsgReaderEventNotification, 1, c15ConnEvent(0, 1600000000000000)))
+				for {
+					typ, mid, _, err := c15ReadFrame(c)
+					if err != nil {
+						return
+					}
+					switch typ {
+					case c15MsgGetSupportedVersion:
+						c.Write(c15Frame(c15MsgGetSupportedVersionResp, mid, append([]byte{2 << 5, 2 << 5}, c15Status(0)...)))
+					case c15MsgSetReaderConfig:
+						c.Write(c15Frame(c15MsgSetReaderConfigResp, mid, c15Status(0)))
+					case c15MsgGetReaderConfig:
+						c.Write(c15Frame(c15MsgGetReaderConfigResp, mid, c15Status(0)))
+					case c15MsgCloseConnection:
+						c.Write(c15Frame(c15MsgCloseConnectionResponse, mid, c15Status(0)))
+						gone()
+						time.Sleep(2 * time.Millisecond)
+						return
+					}
+				}
+			}(c)
+		}
+	}()
+	asyncCh := make(chan *dsModels.AsyncValues, 256)
+	stopDrain := make(chan struct{})
+	e.close = func() { close(stopDrain); l.Close() }
+	go func() {
+		for {
+			select {
+			case <-asyncCh:
+			case <-stopDrain:
+				return
+			}
+		}
+	}()
+	e.d = &Driver{lc: c15SlowLogger{c15Logger{errs: &r.errLogs}, logDelay}, asyncCh: asyncCh, svc: &c15SDK{run: r},
+		activeDevices: make(map[string]*LLRPDevice), done: make(chan struct{}), config: &ServiceConfig{}}
+	e.proto = protocolMap{"tcp": {"host": "127.0.0.1", "port": port}}
+	return e, ""
+}
+
+// c15RunRace: n callers released together ask the driver for the same, not yet managed device name
+// (AddDevice / UpdateDevice / a read command), reps times with a fresh name; then the device is
+// removed. One name = one supervisor: never more than one connection at a time while it is
+// managed, none left open and no new one after RemoveDevice returned (watched for two slow waits
+// and a quick one). answer: "maxconc=<n> late=<n> open=<n> cmds=<ok>/<n>"
+func c15RunRace(id string, n, reps int) string {
+	e, bad := c15NewRaceEnv(id, 2*time.Millisecond)
+	if e == nil {
+		return bad
+	}
+	defer e.close()
+	r, d, proto := e.r, e.d, e.proto
+	conc, maxconc, accepted := &e.conc, &e.maxconc, &e.accepted
+	var late, open, cmdOK, cmdN int64
+	for rep := 0; rep < reps; rep++ {
+		name := fmt.Sprintf("race-%s-%d", id, rep)
+		r.name = name
+		var gate atomic.Int32
+		var wg, ready sync.WaitGroup
+		var ok atomic.Int64
+		for k := 0; k < n; k++ {
+			wg.Add(1)
+			ready.Add(1)
+			go func(k int) {
+				defer wg.Done()
+				ready.Done()
+				for gate.Load() == 0 { // spin barrier: all callers leave together
+					runtime.Gosched()
+				}
+				switch k % 3 {
+				case 0:
+					_ = d.AddDevice(name, proto, models.Unlocked)
+				case 1:
+					_ = d.UpdateDevice(name, proto, models.Unlocked)
+				default:
+					if _, err := d.HandleReadCommands(name, proto, []dsModels.CommandRequest{{DeviceResourceName: ResourceReaderConfig, Type: "Object"}}); err == nil {
+						ok.Add(1)
+					}
+				}
+			}(k)
+		}
+		ready.Wait()
+		if rep%2 == 1 {
+			// while another reader of the device map is at work (as any command for any other
+			// device is), nobody can insert: callers that reach "is it managed already?" before
+			// the first writer queues up all get past it
+			d.devicesMu.RLock()
+			gate.Store(1)
+			time.Sleep(20 * time.Millisecond)
+			d.devicesMu.RUnlock()
+		} else {
+			gate.Store(1)
+		}
+		wg.Wait()
+		cmdOK += ok.Load()
+		cmdN += int64(n / 3)
+		for dl := time.Now().Add(3 * time.Second); conc.Load() < 1 && time.Now().Before(dl); {
+			time.Sleep(time.Millisecond)
+		}
+		time.Sleep(150 * time.Millisecond) // any second supervisor has connected by now as well
+		_ = d.RemoveDevice(name, proto)
+		before := accepted.Load()
+		time.Sleep(2*c15SlowWait + c15QuickWait + 60*time.Millisecond)
+		late += accepted.Load() - before
+		open += conc.Load()
+	}
+	return fmt.Sprintf("maxconc=%d late=%d open=%d cmds=%d/%d", maxconc.Load(), late, open, cmdOK, cmdN)
+}
+
+// c15RunReadd: a device is added, connects, is removed and added again under the same name by
+// the same caller straight away (re-provisioning), reps times with a fresh name. The second
+// registration is a managed device nobody stopped: it must stay managed and keep (or regain) its
+// connection. answer: "managed=<k>/<reps> connected=<k>/<reps> maxconc=<n>"
+func c15RunReadd(id string, reps int, logDelay time.Duration) string {
+	e, bad := c15NewRaceEnv(id, logDelay)
+	if e == nil {
+		return bad
+	}
+	defer e.close()
+	d, proto := e.d, e.proto
+	waitConn := func(want int64, dur time.Duration) bool {
+		for dl := time.Now().Add(dur); time.Now().Before(dl); time.Sleep(time.Millisecond) {
+			if e.conc.Load() == want {
+				return true
+			}
+		}
+		return e.conc.Load() == want
+	}
+	managed, connected := 0, 0
+	for rep := 0; rep < reps; rep++ {
+		name := fmt.Sprintf("readd-%s-%d", id, rep)
+		e.r.name = name
+		_ = d.AddDevice(name, proto, models.Unlocked)
+		waitConn(1, 3*time.Second)
+		_ = d.RemoveDevice(name, proto)
+		_ = d.AddDevice(name, proto, models.Unlocked)
+		// the old supervisor has wound down by now or does so within a moment
+		time.Sleep(2*c15SlowWait + c15QuickWait + 60*time.Millisecond)
+		d.devicesMu.RLock()
+		_, ok := d.activeDevices[name]
+		d.devicesMu.RUnlock()
+		if ok {
+			managed++
+		}
+		if waitConn(1, 2*c15SlowWait+c15QuickWait) {
+			connected++
+		}
+		_ = d.RemoveDevice(name, proto)
+		waitConn(0, 3*time.Second)
+	}
+	return fmt.Sprintf("managed=%d/%d connected=%d/%d maxconc=%d", managed, reps, connected, reps, e.maxconc.Load())
+}
+
 func TestVerifC15(t *testing.T) {
 	lines, w, done := verifIO(t)
 	defer done()
@@ -1010,6 +1223,18 @@ func TestVerifC15(t *testing.T) {
 			defer wg.Done()
 			defer func() { <-sem }()
 			emit("S %d\n", i)
+			if f[1] == "readd" && len(f) == 4 {
+				reps, _ := strconv.Atoi(f[2])
+				ms, _ := strconv.Atoi(f[3])
+				emit("R %d %s\n", i, c15RunReadd(f[0], reps, time.Duration(ms)*time.Millisecond))
+				return
+			}
+			if f[1] == "race" && len(f) == 4 {
+				n, _ := strconv.Atoi(f[2])
+				reps, _ := strconv.Atoi(f[3])
+				emit("R %d %s\n", i, c15RunRace(f[0], n, reps))
+				return
+			}
 			if f[1] == "start" && len(f) == 4 {
 				emit("R %d %s\n", i, c15RunStart(f[0], f[2] == "1", f[3]))
 				return
